@@ -633,6 +633,9 @@ def _emit_fn(g, meta, tmpl, rel, src, m, ctx, name, kv, subs):
         elif kind == 'loop':
             loops_spec[int(arg.split()[0])] = content
         elif kind == 'at':
+            if arg.strip() in ('start', 'end'):
+                hints.append((arg.strip(), '', 0, content, lno))
+                continue
             mo3 = re.match(r'(before|after)\s+`(.*)`\s*(?:#(\d+))?\s*$', arg)
             if not mo3:
                 raise ExtractError(f'{tmpl}:{lno}: bad at directive')
@@ -652,6 +655,12 @@ def _emit_fn(g, meta, tmpl, rel, src, m, ctx, name, kv, subs):
             raise ExtractError(f'{name}: loop #{ordn} not found ({len(loops)} loops) — anchor lost')
         inserts.append((loops[ordn][1], content))
     for (where, atext, kk, content, lno) in hints:
+        if where == 'start':
+            inserts.append((0, content))
+            continue
+        if where == 'end':
+            inserts.append((len(body), content))
+            continue
         off = find_anchor(body, atext, kk)
         if off < 0:
             raise ExtractError(f'{name}: anchor `{atext}` #{kk} not found — anchor lost')
